@@ -1255,6 +1255,31 @@ pub fn run_keyed(args: &Args, rep: &mut Report) {
     const P: &str = "C18";
     let rt = rt();
     for (k, mut rng) in case_iter(args, 0xC18, 40) {
+        if k % 8 == 5 {
+            let res = xvcommon::catch(|| keyed_collision_case(&mut rng, &rt));
+            let w = |what: &str| {
+                let mut w = witness_base(args, "shard_keyed", k);
+                w["mode"] = json!("keyed shard next to an unkeyed shard with same-prefix chunk hashes");
+                w["what"] = json!(what);
+                w
+            };
+            match res {
+                Ok(Ok((hits, twins))) => {
+                    rep.count(P, "keyed_collision_directories", (twins > 0) as u64);
+                    rep.count(P, "keyed_collision_hits", hits);
+                    rep.case(P, if twins > 0 { Some(format!("collision|t{}|h{}", twins.min(8), (hits > 0) as u8)) } else { None });
+                },
+                Ok(Err((sig, msg))) => {
+                    rep.violation(P, &sig, &msg, w(&msg));
+                    rep.case(P, None);
+                },
+                Err(pn) => {
+                    rep.violation(P, "keyed-collision-panic", &pn, w(&pn));
+                    rep.case(P, None);
+                },
+            }
+            continue;
+        }
         if k % 4 == 3 {
             let res = xvcommon::catch(|| keyed_mixture_case(&mut rng, &rt));
             let w = |what: &str| {
@@ -1517,6 +1542,84 @@ fn keyed_mixture_case(rng: &mut Rng, rt: &tokio::runtime::Runtime) -> Result<(u6
         }
     }
     Ok((hits, n_keys_used.len() as u64))
+}
+
+/// A keyed shard next to an unkeyed shard that holds a *different* chunk with the same leading 64 bits as a chunk of
+/// the keyed one: the unkeyed collection (always consulted first) produces an index candidate that the on-disk check
+/// rejects; the query must go on to the keyed collection.  Oracle: whatever a manager over the keyed shard's
+/// original alone answers with a hit, the mixture must answer with a hit too, and truthfully.
+fn keyed_collision_case(rng: &mut Rng, rt: &tokio::runtime::Runtime) -> Result<(u64, u64), Fail> {
+    let solo = tempfile::tempdir().unwrap();
+    let scratch = tempfile::tempdir().unwrap();
+    let mix = tempfile::tempdir().unwrap();
+    let gp = |rng: &mut Rng| GenParams {
+        n_cas: rng.urange(1, 4),
+        max_chunks_per_cas: *rng.pick(&[3usize, 12, 40]),
+        n_files: rng.urange(0, 2),
+        cas_space: KeySpace::Uniform,
+        chunk_space: KeySpace::Uniform,
+        file_space: KeySpace::Uniform,
+        max_group_keys: 2,
+        max_group_chunks: 2,
+        dup_chunks: false,
+        flags: None,
+    };
+    let p1 = gp(rng);
+    let m1 = gen_model(rng, &p1);
+    if m1.cas.is_empty() {
+        return Ok((0, 0));
+    }
+    let mut truth = truth_of(&m1);
+    let t1 = truth.clone();
+    // the unkeyed neighbour: random xorbs in which some chunk hashes are replaced by same-prefix twins of m1's chunks
+    let p2 = gp(rng);
+    let mut m2 = gen_model(rng, &p2);
+    let victims: Vec<MerkleHash> = t1.values().flat_map(|v| v.iter().map(|c| c.0)).collect();
+    if victims.is_empty() {
+        return Ok((0, 0));
+    }
+    let mut twins = 0u64;
+    for c in m2.cas.values_mut() {
+        for ch in c.chunks.iter_mut() {
+            if rng.chance(1, 2) {
+                let v = victims[rng.usize_below(victims.len())];
+                ch.chunk_hash = same_prefix(rng, &v);
+                twins += 1;
+            }
+        }
+    }
+    if twins == 0 || m2.cas.is_empty() {
+        return Ok((0, 0));
+    }
+    truth.extend(truth_of(&m2));
+    let key = rand_hash(rng);
+    let p1path = write_model_shard(solo.path(), &m1)?;
+    MDBShardFile::load_from_file(&p1path)
+        .map_err(|e| ("load".to_string(), format!("{e}")))?
+        .export_as_keyed_shard(mix.path(), key, Duration::from_secs(100_000), rng.chance(1, 2), rng.chance(1, 2), rng.chance(1, 2))
+        .map_err(|e| ("keyed-export-error".to_string(), format!("{e}")))?;
+    let p2path = write_model_shard(scratch.path(), &m2)?;
+    std::fs::copy(&p2path, mix.path().join(p2path.file_name().unwrap())).map_err(|e| ("io".to_string(), format!("{e}")))?;
+    let m_solo = rt.block_on(ShardFileManager::new_in_session_directory(solo.path())).map_err(|e| ("manager-open".to_string(), format!("{e}")))?;
+    let m_mix = rt.block_on(ShardFileManager::new_in_session_directory(mix.path())).map_err(|e| ("manager-open".to_string(), format!("{e}")))?;
+    let qg = QueryGen::new(&t1);
+    let mut hits = 0u64;
+    for _ in 0..120 {
+        let (q, _) = qg.gen(rng, &t1);
+        let a0 = rt.block_on(m_solo.chunk_hash_dedup_query(&q)).map_err(|e| ("keyed-query-error".to_string(), format!("{e}")))?;
+        let a1 = rt.block_on(m_mix.chunk_hash_dedup_query(&q)).map_err(|e| ("keyed-query-error".to_string(), format!("{e}")))?;
+        check_answer(&truth, &q, &a1).map_err(|(s, m)| (format!("keyed-collision-{s}"), m))?;
+        if a0.is_some() && a1.is_none() {
+            return fail(
+                "keyed-collision-lost-hit",
+                "a chunk of a keyed shard is not found because an unkeyed shard in the same directory holds another chunk with the same leading 64 bits",
+            );
+        }
+        if a1.is_some() {
+            hits += 1;
+        }
+    }
+    Ok((hits, twins))
 }
 
 /// write a shard whose footer carries the given (creation, expiry); returns its path
